@@ -1,15 +1,15 @@
 #!/usr/bin/env python3
-"""tools/keep_seed.py <PROP> <mN> "<which check/harness catches it>"  : copies a confirmed seeded change from /tmp/seed_out into /verif/seeded/<PROP>-<mN>/"""
+"""tools/keep_seed.py <PROP> <mN> "<which check/harness catches it>"  : copies a confirmed seeded change from /tmp/seedres into /verif/seeded/<PROP>-<mN>/"""
 import json, os, re, shutil, sys
 prop, m, caught = sys.argv[1:4]
-src = f'/tmp/seed_out/{prop}/{m}'
+src = f'/tmp/seedres/{prop}/{m}'
 dst = f'/verif/seeded/{prop}-{m}'
 os.makedirs(dst, exist_ok=True)
 shutil.copy(f'{src}/patch.diff', dst)
 shutil.copy(f'{src}/demo.py', dst)
 meta = json.load(open(f'{src}/meta.json'))
 conf = json.load(open(f'{src}/confirm.json')) if os.path.exists(f'{src}/confirm.json') else {}
-res = f'/tmp/seed_out/res_{prop}_{m}.txt'
+res = f'/tmp/seedres/res_{prop}_{m}.txt'
 chk = {}
 if os.path.exists(res):
     t = open(res).read()
